@@ -39,6 +39,9 @@ TRUSTED = ['hand-written model coq/Model/Equality.v tied to biom/table.py and to
            'sum_duplicates, compared array for array) by this correspondence run',
            'scipy element-wise != of two CSR matrices is modelled by its denotation (dense comparison)',
            'extraction (ExtrOcamlBasic only) + ocaml/driver_tail.ml, cross-checked against vm_compute on a sample']
+from . import regen_eq as _regen_eq
+# py2v_eq: regenerate coq/Gen/EqualityGen.v (__eq__, __ne__, descriptive_equality, _data_equality) from the source first
+regenerate = _regen_eq.hook(TRUSTED, ['equality'], 'coq/Model/Equality.v', 'coq/Proofs/GenBridgeEqualityProofs.v')
 ASSUMPTIONS = ['NaN-free values (property domain); metadata values never differ only by 1 / 1.0 / True',
                'sparse inputs carry no duplicate (row, column) entries (scipy sums them before a table exists)',
                'the byte-level half of "export the same" is decided by this run, the content-level half by export_factors']
